@@ -261,7 +261,7 @@ def static_atomic(tier, seed, build, repo, verif):
 CONFIG = {
     "id": "C14",
     "coq_dirs": ["theories/Locks"],
-    "coq_targets": ["theories/Locks/Properties.vo", "theories/Locks/Corr.vo", "theories/Dir/Corr.vo", "theories/Dir/Front.vo"],
+    "coq_targets": ["theories/Locks/Properties.vo", "theories/Locks/Corr.vo", "theories/Dir/Corr.vo", "theories/Dir/Front.vo", "theories/File/Corr.vo"],
     "properties_files": ["theories/Locks/Properties.v"],
     "required_theorems": ["balanced_sound", "balanced_sound_all", "balanced_no_fault", "balanced_panic_covered", "atomic_section_sound", "acyclic_sound",
                           "order_no_deadlock", "pile_holds_exactly", "pile_blocks_bare", "no_deadlock", "pile_runner_satisfies_monitor"],
@@ -273,8 +273,13 @@ CONFIG = {
         # return) the lock of every touched directory must be free; kinds "C14:lock-leak:<method>"
         {"cmd": "dir", "cases_quick": 320, "cases_thorough": 8000, "shards_quick": 8, "shards_thorough": 32, "race": True,
          "shared": True, "coq_dirs": ["theories/Dir"]},
+        # termination of concurrent calls on one pool-backed file (pool_backed_file_allocator.go is one of C14's
+        # files): a mutator or upload parked on a frozen / busy file is woken when its condition holds; the file
+        # harness of C16 parks real goroutines and reports a sleeper that is not woken as "lost-wakeup"
+        {"cmd": "file", "cases_quick": 320, "cases_thorough": 8000, "shards_quick": 8, "shards_thorough": 32, "race": True,
+         "shared": True, "coq_dirs": ["theories/File"]},
     ],
-    "violation_kinds": ["lock-leak", "hang", "pile-", "C14:"],
+    "violation_kinds": ["lock-leak", "hang", "pile-", "C14:", "lost-wakeup"],
     "trusted_base": [
         "translator /verif/translator (Go, go/ast): emits the lock skeleton and the lock-class order graph faithfully; fails on constructs touching locks it does not understand "
         "and on nested acquisitions it cannot place (unknown class, same class outside one LockPile without a listed justification); "
